@@ -124,7 +124,8 @@ pub fn check(c: &Case) -> Outcome {
 fn seq_strategy() -> BoxedStrategy<String> {
     // CSI: parameter/intermediate bytes 0x20..=0x3f, then a final byte.
     let csi = (
-        prop::collection::vec(prop::char::range(' ', '?'), 0..6),
+        prop_oneof![12 => (0usize..6).boxed(), 1 => gen::log_count(300)]
+            .prop_flat_map(|n| prop::collection::vec(prop::char::range(' ', '?'), n..=n)),
         prop::char::range('@', '~'),
     )
         .prop_map(|(p, f)| {
@@ -139,8 +140,11 @@ fn seq_strategy() -> BoxedStrategy<String> {
         1 => Just('\u{65e5}'),
         1 => Just('\u{e9}'),
         3 => any::<char>().prop_filter("not BEL/ESC", |c| *c != '\x07' && *c != '\x1b'),
-    ];
-    let osc = (prop::collection::vec(payload_ch, 0..8), any::<bool>()).prop_map(|(p, bel)| {
+    ]
+    .boxed();
+    // payload length mostly short, on a logarithmic scale up to 700
+    let plen = prop_oneof![12 => (0usize..8).boxed(), 1 => gen::log_count(700)];
+    let osc = (plen.prop_flat_map(move |n| prop::collection::vec(payload_ch.clone(), n..=n)), any::<bool>()).prop_map(|(p, bel)| {
         let mut s = String::from("\x1b]");
         s.extend(p);
         s.push_str(if bel { "\x07" } else { "\x1b\\" });
